@@ -406,6 +406,13 @@ func (rn *runner) checkCase(c Case, sl *slot, seq int) {
 			rep("marshal/input-modified/"+label, "the value differs from the deep copy made before marshalling; output "+clip(string(data)))
 		}
 		keep := string(data)
+		// the same value handed over by value (json.Marshal(*o), a struct field, a map
+		// value): encoding/json then only finds value-receiver marshalers
+		if rv := reflect.ValueOf(in); rv.Kind() == reflect.Ptr && !rv.IsNil() {
+			if byVal, err := guardedMarshal(rn.cfg, rv.Elem().Interface()); err != nil || string(byVal) != keep {
+				rep("marshal/by-value-differs/"+label, fmt.Sprintf("marshalling the value instead of the pointer: err=%v %s vs %s", err, clip(string(byVal)), clip(keep)))
+			}
+		}
 		if again, err := guardedMarshal(rn.cfg, in); err != nil || string(again) != keep {
 			rep("marshal/not-repeatable/"+label, fmt.Sprintf("second marshal of the same value: err=%v %s vs %s", err, clip(string(again)), clip(keep)))
 		}
